@@ -351,6 +351,10 @@ def run(ctx):
     ctx.exhaustive = True
     from . import c06_combine
     c06_combine.run(ctx)
+    d = array_obs_case()
+    ctx.ok(("array-obs",))
+    if d:
+        ctx.violation(d, {"kind": "array-obs"})
     # very long histories by doubling (counts far beyond 2^31)
     jobs = [(typ, acc, 45) for typ in ("SUM", "RATIO", "CHOICE") for acc in (False,)]
     for job, d in zip(jobs, pool_map(doubling_case, jobs)):
@@ -402,7 +406,45 @@ def doubling_case(job):
     return None
 
 
+def array_obs_case(_=None):
+    """(rel) array-valued observations: the sum is the element-wise sum, in one object or split and merged; neither the
+    caller's arrays nor the merged-in operand are written to"""
+    try:
+        from pyphysim.simulations.results import Result
+        obs = [np.array([1.0, 2.0]), np.array([10.0, 20.0]), np.array([100.0, 200.0])]
+        keep = [o.copy() for o in obs]
+        for cut in (1, 2):
+            one = Result("v", Result.SUMTYPE)
+            for o in obs:
+                one.update(o)
+            a, b = Result("v", Result.SUMTYPE), Result("v", Result.SUMTYPE)
+            for o in obs[:cut]:
+                a.update(o)
+            for o in obs[cut:]:
+                b.update(o)
+            bval = np.array(b.get_result())
+            a.merge(b)
+            want = np.sum(keep, axis=0)
+            for what, r in (("one object", one), (f"split {cut}+{3 - cut} and merged", a)):
+                if not np.array_equal(np.asarray(r.get_result()), want) or r.num_updates != 3:
+                    return f"array observations, {what}: value {r.get_result()}, {r.num_updates} updates; expected {want.tolist()}, 3"
+            if not np.array_equal(np.asarray(b.get_result()), bval) or b.num_updates != 3 - cut:
+                return "array observations: the merged-in operand was changed by the merge"
+            for o, k in zip(obs, keep):
+                if not np.array_equal(o, k):
+                    return f"array observations: the caller's observation array {k.tolist()} was overwritten with {o.tolist()}"
+        return None
+    except Exception as ex:      # noqa
+        return f"array observations: {type(ex).__name__}: {ex}"
+
+
 def replay(ctx, data):
+    if data["case"].get("kind") == "array-obs":
+        d = array_obs_case()
+        ctx.ok()
+        if d:
+            ctx.violation(d, data)
+        return
     c = data["case"]
     if c.get("kind") == "doubling":
         d = doubling_case(tuple(c["job"]))
